@@ -28,11 +28,12 @@ InitModel(cfg) ==
       conns    |-> <<>>,                                         \* sequence of [cid, size, sess, lastSeq, lastReply, serial, tocid]
       alive    |-> TRUE,
       dHandle  |-> <<>>,                                         \* handle the driver was told in this TCP connection
+      oldSerials |-> {},                                         \* serial number triads of connections the target still held when the driver returned from close()
       dConns   |-> {},                                           \* connection ids the driver was told about
       largeRefused |-> FALSE,
       pend     |-> NoPend,
       call     |-> [api |-> "none", intent |-> [none |-> 1]],
-      ntx |-> 0, corrupted |-> FALSE, corrEncap |-> FALSE,                            \* frames sent in the current call; one of its replies was corrupted
+      ntx |-> 0, corrupted |-> FALSE, corrEncap |-> FALSE, dupTold |-> FALSE,                            \* frames sent in the current call; one of its replies was corrupted
       nIntent  |-> 0,                                            \* frames of the current call that carry its intent
       last     |-> [k |-> "none"],                               \* what the target answered to the intent frame
       inClose  |-> FALSE,
@@ -236,6 +237,10 @@ TxStep0(m, ev) ==
             ELSE IF m.policy = "AllRefused" \/ (fo.large /\ m.policy = "LargeRefused")
                  THEN Good([m EXCEPT !.pend = [kind |-> "reply", bytes |-> RRReply(pf.handle, pf.ctx, FOReplyRefused(q.svc)),
                                                tell |-> [k |-> IF fo.large THEN "largeRefused" ELSE "none"]]])
+            \* a connection with the same serial number triad is still held (its Forward Close never arrived): duplicate Forward Open
+            ELSE IF \E i \in 1..Len(m.conns) : m.conns[i].serial = fo.serial
+                 THEN Good([m EXCEPT !.pend = [kind |-> "reply", bytes |-> RRReply(pf.handle, pf.ctx, MRReply(q.svc, 1, <<256>>, <<>>)),
+                                               tell |-> [k |-> "dup", large |-> fo.large, old |-> fo.serial \in m.oldSerials]]])
             ELSE IF ~Has(ch, "cid") \/ HasConn(m, ch.cid) THEN Bad(m, "MACHINERY:choice-cid")
             ELSE Good([m EXCEPT !.conns = Append(@, [cid |-> ch.cid, size |-> fo.size, sess |-> pf.handle, lastSeq |-> -1, lastReply |-> <<>>,
                                                       serial |-> fo.serial, tocid |-> fo.tocid]),
@@ -292,6 +297,7 @@ Tell(m, t) ==
       [] t.k = "conn"         -> [m EXCEPT !.dConns = @ \cup {t.cid}]
       [] t.k = "closed"       -> [m EXCEPT !.dConns = @ \ t.cids]
       [] t.k = "largeRefused" -> [m EXCEPT !.largeRefused = TRUE]
+      [] t.k = "dup"          -> [m EXCEPT !.largeRefused = @ \/ t.large, !.dupTold = @ \/ t.old]
       [] OTHER                -> m
 
 \* a reply as the (possibly corrupting) network delivered it: the logged bytes are the target's reply after the
@@ -344,6 +350,10 @@ RetStep(m, ev) ==
                                                           \o (IF api = "read" /\ m.kind # "slc" /\ m.lx.on /\ ev.faulted = 0 /\ Len(m.call.intent.items) <= 50
                                                                  /\ \E i \in 1..Len(m.call.intent.items) : ExpectRead(m.lx, m.call.intent.items[i]).cls # "invalid"
                                                               THEN "+C01:raised-for-existing" ELSE ""))
+    \* after a close() the client presented again the serial numbers of a connection the target still holds (its Forward
+    \* Close was lost): the target refuses the duplicate, so the driver object does not work again after its close().
+    \* (A Forward Open repeated WITHOUT a close in between, after its reply was lost, is refused as well: not demanded.)
+    ELSE IF m.dupTold /\ ~m.closeFault /\ m.alive THEN Bad(m, "C10:reopen-duplicate-connection")
     ELSE IF api \in {"close", "exit"} /\ ev.connected # 0 THEN Bad(m, "C10:close-state")
     ELSE IF api \in {"close", "exit"} /\ ~m.closeFault /\ m.alive /\ ev.faulted = 0
             /\ (m.sessions # {} \/ \E i \in 1..Len(m.conns) : m.conns[i].cid \in m.dConns) THEN Bad(m, "C10:target-dirty")
@@ -438,7 +448,7 @@ RetStep(m, ev) ==
 (* ------------------------------------------------------------------------------------------------------------ *)
 Step(m, ev) ==
     CASE ev.k = "call" ->
-           Good([m EXCEPT !.call = [api |-> ev.api, intent |-> ev.intent], !.nIntent = 0, !.last = [k |-> "none"], !.ntx = 0, !.corrupted = FALSE, !.corrEncap = FALSE,
+           Good([m EXCEPT !.call = [api |-> ev.api, intent |-> ev.intent], !.nIntent = 0, !.last = [k |-> "none"], !.ntx = 0, !.corrupted = FALSE, !.corrEncap = FALSE, !.dupTold = FALSE,
                           !.slcPre = m.slc, !.slcIdx = 0,
                           !.inClose = ev.api \in {"close", "exit"}, !.closeFault = FALSE,
                           !.policy = IF ev.api = "_env" /\ Has(ev.intent, "policy") THEN ev.intent.policy ELSE @,   \* the target's admission policy changes
@@ -471,7 +481,8 @@ Step(m, ev) ==
       [] ev.k = "ret" ->
            LET r == RetStep(m, ev) IN
            IF r.fail # "" THEN r ELSE Good([r.m EXCEPT !.closedOnce = @ \/ ev.api \in {"close", "exit"}, !.inClose = FALSE,
-                                                      !.dConns = IF ev.api \in {"close", "exit"} THEN {} ELSE @])
+                                                      !.dConns = IF ev.api \in {"close", "exit"} THEN {} ELSE @,
+                                                      !.oldSerials = IF ev.api \in {"close", "exit"} THEN @ \cup {r.m.conns[i].serial : i \in 1..Len(r.m.conns)} ELSE @])
       [] OTHER -> Bad(m, "MACHINERY:unknown-event")
 
 (* ------------------------------------------------------------------------------------------------------------ *)
@@ -489,7 +500,8 @@ Init == /\ t = 1 /\ l = 2 /\ verdict = "ok" /\ stopped = FALSE /\ firstAt = 0 /\
 Machinery(c) == Len(c) >= 9 /\ SubSeq(c, 1, 9) = "MACHINERY"
 HasClause(v, c) == \E i \in 1..(Len(v) - Len(c) + 1) : SubSeq(v, i, i + Len(c) - 1) = c
 AfterRet(m2, ev) == [m2 EXCEPT !.closedOnce = @ \/ ev.api \in {"close", "exit"}, !.inClose = FALSE,
-                               !.dConns = IF ev.api \in {"close", "exit"} THEN {} ELSE @]
+                               !.dConns = IF ev.api \in {"close", "exit"} THEN {} ELSE @,
+                               !.oldSerials = IF ev.api \in {"close", "exit"} THEN @ \cup {m2.conns[i].serial : i \in 1..Len(m2.conns)} ELSE @]
 
 EndOfTrace == l > Len(Events(t)) \/ stopped
 Consume == /\ t <= NTraces /\ ~EndOfTrace
